@@ -138,3 +138,4 @@ Print Assumptions C09_revoke_stops.
 Print Assumptions C09_handoff_full_refuted.
 Print Assumptions C09_handoff_partial.
 Print Assumptions C09_nothing_outside.
+Print Assumptions C09_handoff_witness.
